@@ -4,8 +4,10 @@
 // processStatsMessagesWorker and reportAggregatesWorker) for property C19.
 //
 // How determinism is obtained without re-implementing or stepping any aggregator code:
+//
 //   - the aggregator is built by the verif hook (NewVerif) with a harness-owned mutex, harness-owned
 //     channels and an injected clock function; everything else is the real Start();
+//
 //   - the injected clock tells its two callers apart by their call stack.  A call from
 //     processStatsMessagesWorker (the expiry test, made WITHOUT the lock) is a rendezvous with the
 //     harness: the worker parks inside now() until the harness hands it the reading.  The arrival
@@ -14,6 +16,7 @@
 //     reading the clock and taking the lock: this is how the check/insert race is provoked
 //     (op "R": fix the reading, advance the clock past the bucket's expiry, let the reporter scan,
 //     then let the worker insert, then let the reporter scan again);
+//
 //   - a call from reportAggregatesWorker (made under the lock, once per open bucket) returns the
 //     reporter's clock, which the harness moves (holding the mutex, so never in the middle of a scan)
 //     only when the script says "scan".  Between scripted scans the reporter keeps waking up every
@@ -21,8 +24,20 @@
 //     (every later insert went to a bucket that was not expired at an equal or later reading, and
 //     after a race a scripted scan follows at once), i.e. it is indistinguishable from the reporter
 //     not having been scheduled.  These ineffective scans are not events of the history;
+//
 //   - a scripted scan is complete when the reporter has made one clock call per open bucket after the
 //     reporter clock was moved and has released the mutex.
+//
+//   - op "T" (ticking scan): real time passes INSIDE one scan.  The reporter's k-th clock call of that
+//     scan reads t0 + k*step (t0 = clock + D).  The code calls the clock once per open bucket in Go map
+//     order, so which bucket sees which reading is not determined; the harness therefore lets a second,
+//     ordinary scan follow at R = the last reading handed out, and merges the stats of both: a bucket
+//     is reported by the pair iff it is expired at R (a bucket reported by the ticking scan was expired
+//     at a reading <= R; every other bucket expired at R is reported by the second scan).  The pair is
+//     ONE event "Scan R" of the history, compared with the model like any other.  A reporter that
+//     reads the clock again for a second decision inside the same scan (prune by clock instead of
+//     "what I just reported") loses buckets whose expiry instant lies between the readings: the
+//     monitor sees recorded values that are neither reported nor open.
 //
 // Residual nondeterminism: none in the observables.  Wall-clock time only decides how long a scripted
 // scan waits for the reporter's next wake-up (<= 250 ms).
@@ -63,11 +78,14 @@ type astat struct {
 //
 //	A advance the clock by D (no scan);
 //	S let the reporter scan at the current clock;
-//	R race: Check of S at the current clock, clock += D, scan, Insert, scan.
+//	R race: Check of S at the current clock, clock += D, scan, Insert, scan;
+//	T ticking scan: the reporter's k-th clock call of one scan reads clock + D + k*Step, then an
+//	  ordinary scan at the last reading R; clock := R.
 type step struct {
-	Op string `json:"op"`
-	S  *astat `json:"s,omitempty"`
-	D  int64  `json:"d,omitempty"`
+	Op   string `json:"op"`
+	S    *astat `json:"s,omitempty"`
+	D    int64  `json:"d,omitempty"`
+	Step int64  `json:"step,omitempty"`
 }
 
 type acase struct {
@@ -83,6 +101,7 @@ type event struct {
 	Kind string // C, I, S
 	S    astat
 	Now  int64
+	Note string
 }
 
 type ostat struct {
@@ -112,6 +131,10 @@ type drv struct {
 	mu       *sync.Mutex
 	repClk   atomic.Int64
 	repCalls atomic.Int64
+	tick     atomic.Bool // ticking scan in progress: k-th reporter call reads tickBase + k*tickStep
+	tickBase atomic.Int64
+	tickStep atomic.Int64
+	tickN    atomic.Int64
 	repNote  chan struct{}
 	arrive   chan chan int64
 	in       chan stats.Stat
@@ -153,6 +176,9 @@ func (d *drv) now() time.Time {
 		return time.Unix(0, <-r)
 	case whoReport:
 		v := d.repClk.Load()
+		if d.tick.Load() {
+			v = d.tickBase.Load() + d.tickN.Add(1)*d.tickStep.Load()
+		}
 		d.repCalls.Add(1)
 		select {
 		case d.repNote <- struct{}{}:
@@ -239,6 +265,51 @@ func (d *drv) scan(clk int64) ([]ostat, string) {
 	return d.drain(), ""
 }
 
+// scanTick lets one scan run whose k-th clock call reads t0 + k*step, then an ordinary scan at the
+// last reading R handed out; returns the stats of both and R.
+func (d *drv) scanTick(t0, step int64) ([]ostat, int64, int64, string) {
+	d.mu.Lock()
+	nb := 0
+	seen := map[int64]bool{}
+	for _, a := range d.agg.VerifOpenBucketsLocked() {
+		if !seen[a.Bucket] {
+			seen[a.Bucket] = true
+			nb++
+		}
+	}
+	c0 := d.repCalls.Load()
+	d.tickBase.Store(t0)
+	d.tickStep.Store(step)
+	d.tickN.Store(0)
+	d.tick.Store(true)
+	d.mu.Unlock()
+	if nb > 0 {
+		to := time.After(stepTimeout)
+		for d.repCalls.Load() < c0+int64(nb) {
+			select {
+			case <-d.repNote:
+			case <-time.After(5 * time.Millisecond):
+			case <-to:
+				return nil, 0, 0, "timeout waiting for the reporter"
+			}
+		}
+	}
+	d.mu.Lock() // the ticking scan's locked section is over (or none ran: no open bucket)
+	calls := d.tickN.Load()
+	r := t0 + calls*step
+	d.tick.Store(false)
+	d.repClk.Store(r)
+	d.mu.Unlock()
+	o1 := d.drain()
+	o2, infra := d.scan(r)
+	if infra != "" {
+		return nil, 0, 0, infra
+	}
+	o := append(o1, o2...)
+	sortOstats(o)
+	return o, r, calls, ""
+}
+
 func toStat(s astat) stats.Stat {
 	return stats.Stat{Component: s.C, StatType: stats.StatType(s.T), StatName: s.N, Unit: s.U, Value: s.V, Timestamp: s.TS}
 }
@@ -300,6 +371,23 @@ func runImpl(c acase) (res result) {
 			if !doScan() {
 				return
 			}
+		case "T":
+			t0, stp := clk, st.Step
+			if st.D > 0 {
+				t0 += st.D
+			}
+			if stp < 1 {
+				stp = 1
+			}
+			o, r, calls, infra := d.scanTick(t0, stp)
+			if infra != "" {
+				res.infra = infra
+				return
+			}
+			clk = r
+			res.events = append(res.events, event{Kind: "S", Now: clk,
+				Note: fmt.Sprintf(" (ticking scan: %d clock calls reading %d + k*%d, then a scan at the last reading)", calls, t0, stp)})
+			res.scans = append(res.scans, o)
 		case "F", "R":
 			if st.S == nil {
 				continue
@@ -682,10 +770,12 @@ func genCase(rng *rand.Rand) acase {
 	c := acase{}
 	kind := rng.Intn(100)
 	switch {
-	case kind < 60:
+	case kind < 52:
 		c.Mode = "valid"
-	case kind < 80:
+	case kind < 70:
 		c.Mode = "race"
+	case kind < 80:
+		c.Mode = "ticking" // the clock advances between the reporter's calls within one scan
 	case kind < 84:
 		c.Mode = "collision"
 	case kind < 92:
@@ -756,8 +846,35 @@ func genCase(rng *rand.Rand) acase {
 		}
 		return []int64{0, 1, w / 2, w, grace, grace + 1, w + grace + 1, w - 1}[rng.Intn(8)]
 	}
+	// a ticking scan whose readings straddle the expiry instant of a bucket in use: readings
+	// 1..j are <= the instant (not expired), readings j+1.. are past it
+	genTick := func() step {
+		stp := []int64{1, 2, 1000, w/4 + 1, grace / 2}[rng.Intn(5)]
+		st := step{Op: "T", Step: stp}
+		if len(used) > 0 && rng.Intn(5) != 0 {
+			b := used[rng.Intn(len(used))]
+			e := b + w + grace
+			j := []int64{1, 1, 2, 3}[rng.Intn(4)]
+			t0 := e - stp*j - rng.Int63n(stp)
+			if t0 > clk {
+				st.D = t0 - clk
+			}
+		} else {
+			st.D = genAdvance()
+		}
+		clk += st.D + 2*stp
+		return st
+	}
+	tickShare := 4
+	if c.Mode == "ticking" {
+		tickShare = 30
+	}
 	n := 3 + rng.Intn(10)
 	for i := 0; i < n; i++ {
+		if rng.Intn(100) < tickShare {
+			c.Steps = append(c.Steps, genTick())
+			continue
+		}
 		r := rng.Intn(100)
 		raceShare := 8
 		if c.Mode == "race" {
@@ -782,6 +899,9 @@ func genCase(rng *rand.Rand) acase {
 		default:
 			c.Steps = append(c.Steps, step{Op: "F", S: genStat()})
 		}
+	}
+	if c.Mode == "ticking" && rng.Intn(2) == 0 {
+		c.Steps = append(c.Steps, genTick())
 	}
 	if rng.Intn(3) != 0 {
 		c.Steps = append(c.Steps, step{Op: "A", D: genAdvance()}, step{Op: "S"})
@@ -836,7 +956,7 @@ func init() {
 		for i := 0; i < n; i++ {
 			cases = append(cases, genCase(rng))
 		}
-		rep.Rule = "corpus first, then seeded: 60% valid (1-3 identities, count/histogram, timestamps at window edges of the current, previous and next windows, clock advances aimed at bucket+window+grace-1/+0/+1, scans), 20% race-heavy (35% of the steps hold the ingest worker between its expiry test and its insert while the clock passes the expiry and the reporter scans), 4% identities whose bare concatenations coincide (regression for F9, fixed in 7beb2ab: must now be kept apart), 8% adversarial (negative timestamps/values), 5% unknown stat type (panic), 3% zero window (panic). Non-trivial: at least one scan reported something and at least 3 stats were fed; distinct by step list. The monitor runs on in-domain cases (window > 0, known types, timestamps >= 0)."
+		rep.Rule = "corpus first, then seeded: 52% valid (1-3 identities, count/histogram, timestamps at window edges of the current, previous and next windows, clock advances aimed at bucket+window+grace-1/+0/+1, scans; 4% of the steps are ticking scans), 18% race-heavy (35% of the steps hold the ingest worker between its expiry test and its insert while the clock passes the expiry and the reporter scans), 10% ticking (30% of the steps are scans during which the reporter's clock advances by a fixed step at each of its calls, placed so that an open bucket's expiry instant lies strictly inside the scan's readings; such a scan is followed by an ordinary scan at its last reading and the pair is one Scan event, see the package comment), 4% identities whose bare concatenations coincide (regression for F9, fixed in 7beb2ab: must now be kept apart), 8% adversarial (negative timestamps/values), 5% unknown stat type (panic), 3% zero window (panic). Non-trivial: at least one scan reported something and at least 3 stats were fed; distinct by step list. The monitor runs on in-domain cases (window > 0, known types, timestamps >= 0)."
 		results := runAll(cases)
 		var sb strings.Builder
 		sb.WriteString("From Bifrost.model Require Import Base Aggregator.\nOpen Scope string_scope.\nDefinition cases : list acase := [\n")
@@ -924,7 +1044,7 @@ func replay(cs json.RawMessage) string {
 		case "I":
 			fmt.Fprintf(&sb, "Insert %+v (if the check did not drop it)\n", e.S)
 		case "S":
-			fmt.Fprintf(&sb, "Scan   at clock %d -> %d stats sent\n", e.Now, len(res.scans[si]))
+			fmt.Fprintf(&sb, "Scan   at clock %d%s -> %d stats sent\n", e.Now, e.Note, len(res.scans[si]))
 			for _, o := range res.scans[si] {
 				fmt.Fprintf(&sb, "         %+v\n", o)
 			}
